@@ -84,6 +84,17 @@ func (p *Prog) identityPredicate(fn *ssa.Function) bool {
 			}
 			return false
 		}
+		// `strings.IndexAny(x, set) >= 0` / `!= -1` / `> -1` is the same predicate
+		if b, ok := v.(*ssa.BinOp); ok {
+			if cl := isCallNamed(b.X, "strings.IndexAny"); cl != nil && cl.Call.Args[0] == prm {
+				set, ok1 := constString(cl.Call.Args[1])
+				k, ok2 := constInt(b.Y)
+				if ok1 && ok2 && coversEscapeSet(set) && ((b.Op == token.GEQ && k == 0) || (b.Op == token.NEQ && k == -1) || (b.Op == token.GTR && k == -1)) {
+					continue
+				}
+			}
+			return false
+		}
 		if cst, ok := v.(*ssa.Const); ok && cst.Value != nil {
 			if cst.Value.String() == "true" {
 				// must be guarded by a byte comparison of param[i]
@@ -427,15 +438,21 @@ func init() {
 			// constants compared with attr.Key in the serialiser that lead to a raw write
 			ser := p.MustFn("vuego.renderNodeWithContext")
 			var rawKeys []string
-			eachInstr(ser, func(in ssa.Instruction) {
-				if b, ok := in.(*ssa.BinOp); ok && b.Op == token.EQL {
-					if f := loadedField(b.X); f != nil && f.Name() == "Key" {
-						if s, ok := constString(b.Y); ok {
-							rawKeys = append(rawKeys, s)
+			// the serialiser and the helpers extracted from it (root-package functions in its cone)
+			for _, f := range sortedFuncs(p.Cone(ser)) {
+				if pk := funcPkg(f); pk == nil || pk.Path() != modPath || f.Name() == "shouldIgnoreAttr" {
+					continue
+				}
+				eachInstr(f, func(in ssa.Instruction) {
+					if b, ok := in.(*ssa.BinOp); ok && b.Op == token.EQL {
+						if fl := loadedField(b.X); fl != nil && fieldIs(fl, "Key") {
+							if s, ok := constString(b.Y); ok {
+								rawKeys = append(rawKeys, s)
+							}
 						}
 					}
-				}
-			})
+				})
+			}
 			sort.Strings(rawKeys)
 			for _, k := range rawKeys {
 				c.check(k == carrierHTML || k == carrierText, "serialiser: raw content key "+k, p.pos(ser.Pos()), "internal carrier", "the serialiser treats attribute \""+k+"\" as raw content: a new unescaped channel into the output")
@@ -448,7 +465,7 @@ func init() {
 						return
 					}
 					fv := fieldVar(st.Addr)
-					if fv == nil || fv.Name() != "Key" {
+					if fv == nil || !fieldIs(fv, "Key") {
 						return
 					}
 					k, ok := constString(st.Val)
@@ -479,7 +496,7 @@ func init() {
 										// pass-through of an existing carrier attribute (trimmed copy)
 										if cl, ok := o.(*ssa.Call); ok && strings.HasPrefix(calleeName(&cl.Call), "strings.Trim") {
 											for _, oo := range p.origins(cl.Call.Args[0], OriginOpts{}) {
-												if f := loadedField(oo); f != nil && f.Name() == "Val" {
+												if f := loadedField(oo); f != nil && fieldIs(f, "Val") {
 													okO = true
 												}
 											}
@@ -799,16 +816,13 @@ func (p *Prog) carrierGuarded(h TaintHit, seeds map[ssa.Value]seedInfo) string {
 			continue
 		}
 		in := v.(ssa.Instruction)
-		if in.Parent() != h.At.Parent() {
-			continue
-		}
 		if !strings.Contains(h.Why, p.instrPos(in)) {
 			continue
 		}
 		for _, ec := range allGuards(in.Block()) {
 			if b, ok := ec.cond.(*ssa.BinOp); ok && b.Op == token.EQL && ec.want {
 				if s, ok := constString(b.Y); ok && (s == carrierHTML || s == carrierText) {
-					if f := loadedField(b.X); f != nil && f.Name() == "Key" {
+					if f := loadedField(b.X); f != nil && fieldIs(f, "Key") {
 						found = s
 					}
 				}
